@@ -233,7 +233,7 @@ R15B_EXCEPTIONS = {
 
 @rule(
     "R15b",
-    ["C15", "C19"],
+    ["C15", "C19", "C16", "C18"],
     """MEMO-KEY COMPLETENESS: for every memo idiom over an inventoried cache (`if key in C: return C[key]; v = f(...); C[key] =
     v` or `if key not in C: ...; C[key] = v`), every function parameter / expression operand that the miss path reads
     must be mentioned by the key expression (directly, as x._name, or through a token of it). Sibling sites that
@@ -274,6 +274,30 @@ def r15b(ctx):
             ctx.bad(cid, m.mod.loc(m.if_stmt), f"cache key `{unparse(key_x)}` does not mention {problems}, which the cached computation reads: two requests differing only there share one entry, so the answer depends on which ran first")
         else:
             ctx.ok(cid, m.mod.loc(m.if_stmt), f"key `{unparse(key_x)[:100]}` covers the miss path")
+        # a key built from selected components of a mapping (X["a"], X["b"]) while the cached computation is handed X whole:
+        # the components left out of the key are still inputs of the value
+        sub_roots, whole_roots = {}, set()
+        for n in ast.walk(key_x):
+            if isinstance(n, ast.Subscript) and isinstance(n.slice, ast.Constant) and isinstance(n.value, (ast.Name, ast.Attribute)):
+                sub_roots.setdefault(ast.unparse(n.value), []).append(n.slice.value)
+        sub_values = {id(n.value) for n in ast.walk(key_x) if isinstance(n, ast.Subscript) and isinstance(n.slice, ast.Constant)}
+        for n in ast.walk(key_x):
+            if isinstance(n, (ast.Name, ast.Attribute)) and id(n) not in sub_values:
+                whole_roots.add(ast.unparse(n))
+        partial = {r: c for r, c in sub_roots.items() if r not in whole_roots}
+        if partial:
+            whole_in_miss = set()
+            for st in m.miss:
+                if st is m.store:
+                    continue
+                for c in (x for x in ast.walk(st) if isinstance(x, ast.Call)):
+                    for a in list(c.args) + [k.value for k in c.keywords]:
+                        if isinstance(a, (ast.Name, ast.Attribute)):
+                            t = ast.unparse(defs.expand(a, at=st))
+                            if t in partial:
+                                whole_in_miss.add(t)
+            for r in sorted(whole_in_miss):
+                ctx.bad(f"{cid}:partial:{r.split('.')[-1]}", m.mod.loc(m.if_stmt), f"cache key is built from the components {sorted(map(str, partial[r]))} of `{r}` but the cached computation receives `{r}` whole: requests that differ in another component share one entry")
         if isinstance(key_x, ast.Tuple):
             key_arity.setdefault(m.cache, {})[fq] = (len(key_x.elts), m.mod.loc(m.if_stmt))
     # sibling key layouts: other readers of the same cache building a tuple key
